@@ -164,6 +164,19 @@ pub fn set_connection_counter(db: &Database, dbs: &Arc<Databases>) -> Response {
     return set_key_value(CONNECTIONS_KEY.to_string(), value, -1, db, &dbs);
 }
 
+/// Changes the number of connections of the database and publishes it in $connections while
+/// still holding the counter's lock, so two sessions can not publish their counts out of order
+pub fn update_connection_counter(db: &Database, dbs: &Arc<Databases>, connected: bool) -> Response {
+    let mut connections = db
+        .connections
+        .write()
+        .expect("Error getting the db.connections.lock to update");
+    let current = *connections.get_mut();
+    let next = if connected { current + 1 } else { current - 1 };
+    *connections.get_mut() = next;
+    set_key_value(CONNECTIONS_KEY.to_string(), next.to_string(), -1, db, &dbs)
+}
+
 pub fn set_key_value(
     key: String,
     value: String,
